@@ -243,8 +243,8 @@ def _run_main(ctx) -> None:
         raise AnchorError(f"{gen_cls.name}: no counter update found")
 
 
-def _r14f(ctx):
-    ctx.rule("R14f", "executing commands are carried over (or finalized) when a live edit swaps the interpreter")
+def _r14f(ctx, rid: str = "R14f", extra: str = ""):
+    ctx.rule(rid, "executing commands are carried over (or finalized) when a live edit swaps the interpreter")
     prog = ctx.prog
     f = prog.func("openpectus.engine.engine:Engine.on_interpreter_reset")
     ctx.analysed(f)
@@ -257,11 +257,11 @@ def _r14f(ctx):
     settled = any(isinstance(c, ast.Call) and call_attr(c) in ("cancel_commands", "finalize_commands", "cancel_all_commands") for c in walk_no_nested(f.node))
     inst = "Engine.on_interpreter_reset: the old manager's executing/queued requests reach the new manager or are finalized"
     if carried or settled:
-        ctx.ok("R14f", inst)
+        ctx.ok(rid, inst)
     else:
-        ctx.fail("R14f", f, ctors[0], inst, "the new CommandManager only receives the pending Restart request: after a live edit (merge) every command "
+        ctx.fail(rid, f, ctors[0], inst, "the new CommandManager only receives the pending Restart request: after a live edit (merge) every command "
                  "that was executing is orphaned - a UOD command started by injected code is never ticked again, never completes, is "
-                 "never finalized and stays in uod.command_instances (also across Stop); a timed Pause/Hold never ends")
+                 "never finalized and stays in uod.command_instances (also across Stop); a timed Pause/Hold never ends" + extra)
 
 
 def _r14h(ctx) -> None:
